@@ -144,3 +144,35 @@ B("c11-wrap-continue", ["C11"], "annotate.py", "                span_text = wrap
 B("c11-wrap-args-swapped", ["C11"], "annotate.py", "wrap_html_tags(span_text, after, before)", "wrap_html_tags(span_text, before, after)", rule="C11-R2")
 B("c11-oracle-except-true", ["C11"], "utils.py", "    except etree.XMLSyntaxError:\n        return False\n", "    except Exception:\n        return True\n", rule="C11-R4")
 B("c11-oracle-no-root", ["C11"], "utils.py", 'etree.fromstring(f"<div>{text}</div>")', 'etree.fromstring(text)', rule="C11-R4")
+P("seed-C10-1", ["C10"], "seeded/C10-1/patch.diff", rule="C10-R5")
+P("seed-C10-2", ["C10"], "seeded/C10-2/patch.diff", rule="C10-R6")
+P("seed-C11-1", ["C11"], "seeded/C11-1/patch.diff")
+P("seed-C11-2", ["C11"], "seeded/C11-2/patch.diff", rule="C11-R4")
+B("c10-bisect-swapped", ["C10"], "annotate.py", "            start = offset_updater.update(start, bisect_right)\n", "            start = offset_updater.update(start, bisect_left)\n", rule="C10-R7")
+B("c10-diff-cleanup", ["C10"], "annotate.py", 'cleanup="No"', 'cleanup="Semantic"', rule="C10-R5")
+
+# ------------------------------------------------------------------ tokenize
+B("tok-revert-nominative-rewind", ["C12"], "tokenizers.py",
+  "                    # rewind so the text between the start of the dropped\n                    # token and this one is emitted as plain text\n                    offset = last_token.start\n", "", rule="C12-INV")
+B("tok-cursor-to-start", ["C12"], "tokenizers.py", "            offset = token.end\n            last_token = token\n", "            offset = token.start\n            last_token = token\n", rule="C12-INV")
+B("tok-token-before-gap", ["C12"], "tokenizers.py",
+  "            if offset < token.start:\n                # capture plain text before each match\n                self.append_text(all_tokens, text[offset : token.start])\n            # capture match\n            citation_tokens.append((len(all_tokens), token))\n            all_tokens.append(token)\n",
+  "            # capture match\n            citation_tokens.append((len(all_tokens), token))\n            all_tokens.append(token)\n            if offset < token.start:\n                # capture plain text before each match\n                self.append_text(all_tokens, text[offset : token.start])\n",
+  rule="C12-INV")
+B("tok-index-after-token", ["C12"], "tokenizers.py",
+  "            citation_tokens.append((len(all_tokens), token))\n            all_tokens.append(token)\n",
+  "            all_tokens.append(token)\n            citation_tokens.append((len(all_tokens), token))\n", rule="C12-INV")
+B("tok-pop-only-all", ["C12"], "tokenizers.py", "                    citation_tokens.pop(-1)\n                    all_tokens.pop(-1)\n", "                    all_tokens.pop(-1)\n", rule="C12-INV")
+B("tok-no-tail", ["C12"], "tokenizers.py", "        if offset < len(text):\n            self.append_text(all_tokens, text[offset:])\n\n        return all_tokens", "        return all_tokens", rule="C12-TAIL")
+B("tok-sort-by-end", ["C12"], "tokenizers.py", "key=lambda m: (m.start, -m.end)", "key=lambda m: (-m.end, m.start)", rule="C12-P4")
+B("tok-split-any-whitespace", ["C12"], "tokenizers.py", '        for part in text.split(" "):\n', '        for part in text.split():\n', rule="C12-R4")
+B("tok-append-text-keeps-extra-space", ["C12"], "tokenizers.py", "        tokens.pop()  # remove final extra space\n", "", rule="C12-R4")
+B("tok-from-match-unshifted-end", ["C12"], "models.py", "            m[1], start + offset, end + offset, groups=m.groupdict(), **extra\n", "            m[1], start + offset, end, groups=m.groupdict(), **extra\n", rule="C12-R6")
+B("tok-from-match-group-mismatch", ["C12"], "models.py", "        start, end = m.span(1)\n", "        start, end = m.span(0)\n", rule="C12-R6")
+B("tok-hyperscan-no-rebase", ["C12"], "tokenizers.py", "                    yield extractor.get_token(m, offset=start)\n", "                    yield extractor.get_token(m)\n", rule="C12-R6")
+B("tok-skip-overlap-advances-cursor", ["C12"], "tokenizers.py", "                else:\n                    # skip overlaps\n                    continue\n", "                else:\n                    # skip overlaps\n                    offset = token.end\n                    continue\n", rule="C12-INV")
+P("seed-C12-1", ["C12"], "seeded/C12-1/patch.diff")
+P("seed-C12-2", ["C12"], "seeded/C12-2/patch.diff", rule="C12-R6")
+N("tok-rename-cursor", ["C12"], "tokenizers.py", "            if offset < token.start:\n                # capture plain text before each match\n",
+  "            if token.start > offset:\n                # capture plain text before each match\n")
+N("tok-pop-default-arg", ["C12"], "tokenizers.py", "                    citation_tokens.pop(-1)\n                    all_tokens.pop(-1)\n", "                    citation_tokens.pop()\n                    all_tokens.pop()\n")
